@@ -24,7 +24,7 @@ RULE = (
 )
 ASSUMPTIONS = [
     'True is kept out of key alphabets that contain 1 (documented serialization identity, not a defect)',
-    'concurrent clients are threads with separate SQLite connections on one directory, timeout=0',
+    'concurrent clients are threads with separate SQLite connections on one directory (and forked processes in concurrent_processes), timeout=0',
 ]
 
 KEYS = ['a', 'b', 'c', 1, 1.0, 2, b'a', ('t', 1), 'key-long']
